@@ -13,6 +13,40 @@ STATUS_FUNCS: Dict[str, Callable[[Tuple[int, ...]], int]] = {
     'parse-error-418': lambda codes: 418 if -32700 in codes else 202,
 }
 
+def codec_kwargs(codec: str) -> Dict[str, Any]:
+    """'custom': the application configures its own JSON encoder / decoder classes on the integration (documented dispatcher arguments):
+    floats are parsed as Decimal and Decimal results are written as strings - visible only when BOTH hooks are honoured"""
+    if codec == 'default':
+        return {}
+    import decimal
+    import json
+    import pjrpc.server
+
+    class AppEncoder(pjrpc.server.JSONEncoder):
+        def default(self, o: Any) -> Any:
+            if isinstance(o, decimal.Decimal):
+                return f'decimal:{o}'
+            return super().default(o)
+
+    class AppDecoder(json.JSONDecoder):
+        def __init__(self, **kwargs: Any):
+            kwargs['parse_float'] = decimal.Decimal
+            super().__init__(**kwargs)
+
+    return {'json_encoder': AppEncoder, 'json_decoder': AppDecoder}
+
+
+def bare_dispatcher(kind: str, which: str, codec: str):
+    """a dispatcher outside any integration, configured the same way (the reference for 'exactly the dispatcher's response document')"""
+    import pjrpc.server
+    key = ('bare', kind, which, codec, os.getpid())
+    if key not in _APPS:
+        d = (pjrpc.server.AsyncDispatcher if kind == 'async' else pjrpc.server.Dispatcher)(**codec_kwargs(codec))
+        d.add_methods(_registry(kind, which))
+        _APPS[key] = d
+    return _APPS[key]
+
+
 _APPS: Dict[Any, Any] = {}
 _CLIENTS: List[Any] = []
 PREFIX = '/sub'
@@ -31,20 +65,22 @@ def _registry(kind: str, which: str = 'base'):
     return reg
 
 
-def get_app(integration: str, status: str, base: str):
+def get_app(integration: str, status: str, base: str, codec: str = 'default'):
     """returns (post(path_kind, body, content_type) -> (status, content_type, body bytes), dispatcher_for(path_kind))"""
-    key = (integration, status, base, os.getpid())
+    key = (integration, status, base, codec, os.getpid())
     if key in _APPS:
         return _APPS[key]
     fn = STATUS_FUNCS[status]
     kw = {} if fn is None else {'status_by_error': fn}
+    ckw = codec_kwargs(codec)
+    kw.update(ckw)
     if integration == 'aiohttp':
         from aiohttp import web
         from aiohttp.test_utils import TestClient, TestServer
         from pjrpc.server.integration import aiohttp as integ
         rpc = integ.Application(base, **kw)
         rpc.dispatcher.add_methods(_registry('async'))
-        sub = rpc.add_endpoint(PREFIX)
+        sub = rpc.add_endpoint(PREFIX, **ckw)
         sub.add_methods(_registry('async', 'sub'))
 
         async def start():
@@ -72,7 +108,7 @@ def get_app(integration: str, status: str, base: str):
         app = flask.Flask(f'c18_{status}_{len(_APPS)}')
         rpc = integ.JsonRPC(base or '/', **kw)
         rpc.dispatcher.add_methods(_registry('sync'))
-        sub = rpc.add_endpoint(PREFIX)
+        sub = rpc.add_endpoint(PREFIX, **ckw)
         sub.add_methods(_registry('sync', 'sub'))
         rpc.init_app(app)
         client = app.test_client()
@@ -88,7 +124,7 @@ def get_app(integration: str, status: str, base: str):
     else:
         import werkzeug.test
         from pjrpc.server.integration import werkzeug as integ
-        rpc = integ.JsonRPC(base)
+        rpc = integ.JsonRPC(base, **ckw)
         rpc.dispatcher.add_methods(_registry('sync'))
         client = werkzeug.test.Client(rpc)
 
